@@ -120,6 +120,16 @@ HasNonInteger(X, cats) ==
 HasUnseen(X, T, cats) ==
     \E j \in cats : \E r \in 1..NRows(T) : T[r][j + 1] \notin Range(ColOf(X, j))
 
+(* Values outside the range of the u16 category codes.  Recorded (doubled) entries above
+   2 * 65535 or below 0 are such values; INF2 / NINF2 stand for +infinity / -infinity.  They
+   only ever occur in the matrix handed to transform, where they are unseen values like any
+   other: HasUnseen demands an error.  SaturatedCode2 is what a saturating float -> u16 cast
+   makes of them; PreprocTrace uses it to recognise one specific known defect. *)
+INF2  == 2147483646
+NINF2 == 0 - 2147483646
+OutOfCodeRange(v) == v < 0 \/ v > Scale * 65535
+SaturatedCode2(v) == IF v < 0 THEN 0 ELSE IF v > Scale * 65535 THEN Scale * 65535 ELSE v
+
 (* The encoding as a function, by concatenation of per-column pieces (deliberately not
    via NewIdxOf, so that OneHotModel's check  IsOneHot(X, cats, Encode(X, cats))  compares
    two independent formulations of the statement). *)
